@@ -43,6 +43,14 @@ def named_args(name, dim, seed, lo, hi):
         cov = (q * ev) @ q.T
         cov = (cov + cov.T) / 2 * float(s[0])
         a = {"loc": (r.normal(size=d) * 2).tolist(), "covariance": cov.tolist()}
+    if name == "MixShiftedLogNormal":
+        k = 3
+        a = {
+            "loc": (r.normal(size=(k,) + shape) * 0.5).tolist(),
+            "scale": _loguniform(r, 0.3, 2.0, (k,) + shape).tolist(),
+            "shift": (np.sort(r.normal(size=(k,) + shape) * 1.5, axis=0)).tolist(),
+            "weights": _loguniform(r, max(lo, 1e-1), min(hi, 1e1), k).tolist(),
+        }
     if name == "VmapMixture":
         k = 3
         a = {
@@ -74,6 +82,14 @@ def build(spec):
         if name == "VmapMixture":
             comp = eqx.filter_vmap(D.Normal)(f32(a["loc"]), f32(a["scale"]))
             return D.VmapMixture(comp, f32(a["weights"]))
+        if name == "MixShiftedLogNormal":
+            # components whose supports (shift_k, inf) differ: outside a component's support its
+            # bijection's inverse is NaN, which log_prob must turn into -inf, never a NaN gradient
+            def comp(loc, scale, shift):
+                return D.Transformed(D.StandardNormal(jnp.shape(loc)), B.Chain([B.Affine(loc, scale), B.Exp(jnp.shape(loc)), B.Loc(shift)]))
+
+            c = eqx.filter_vmap(comp)(f32(a["loc"]), f32(a["scale"]), f32(a["shift"]))
+            return D.VmapMixture(c, f32(a["weights"]))
         cls = getattr(D, name)
         return cls(**{k: f32(v) for k, v in a.items()})
 
